@@ -764,6 +764,209 @@ def gen_e2e(rng):
                           "close": rng.random() < 0.8} for _ in range(rng.choice([1, 1, 2]))]}
 
 
+# ---------------------------------------------------------------- histories of the logging API
+class _Witness(logging.Handler):
+    """a foreign handler on the scrapli logger (what pytest's caplog or a user's own handler is): must keep receiving"""
+
+    def __init__(self):
+        super().__init__(level=0)
+        self.seen = []
+
+    def emit(self, record):
+        self.seen.append(record.getMessage())
+
+
+def _hist_rec(kind, n, ex):
+    """records with a token that occurs nowhere else in the history (so loss / reordering cannot hide behind a repeat)"""
+    if kind == "R":
+        return rec("read: %r", (f"<r{n}>\n".encode(),), **ex)
+    if kind == "Re":
+        return rec(f"read: {f'<e{n}>'.encode()!r}", (), **ex)
+    if kind == "W":
+        return rec("write: %r", (f"cmd{n}\n",), **ex)
+    return rec(f"info {n} 100%", (), level="INFO", **ex)
+
+
+def run_history(case, work):
+    """enable_basic_logging called 1..3 times, records emitted through the real scrapli loggers in between, then
+    logging.shutdown() or close() of the attached handlers.  The harness keeps NO reference to the handlers:
+    whatever the library drops is really gone, as in a program."""
+    import gc
+    from scrapli.logging import enable_basic_logging
+    d = Path(tempfile.mkdtemp(dir=work.dir))
+    lg = logging.getLogger("scrapli")
+    src = logging.getLogger("scrapli.channel")
+    saved = (lg.level, lg.propagate, list(lg.handlers))
+    files = {k: str(d / f"{k}.log") for k in {st["file"] for st in case["steps"] if st["op"] == "enable"}}
+    for k, pth in files.items():
+        if case.get("old", {}).get(k):
+            Path(pth).write_text(case["old"][k], encoding="utf-8")
+    wit = None
+    err = io.StringIO()
+    raised = None
+    try:
+        with contextlib.redirect_stderr(err):
+            try:
+                for st in case["steps"]:
+                    if st["op"] == "enable":
+                        enable_basic_logging(file=files[st["file"]], level="debug", caller_info=st["caller"], buffer_log=st["buffered"], mode=st["mode"])
+                    elif st["op"] == "witness":
+                        wit = _Witness()
+                        lg.addHandler(wit)
+                    else:
+                        r = st["rec"]
+                        record = mk_record(r)
+                        r["asctime"] = _STD.formatTime(record)
+                        src.handle(record)
+                        del record
+                if case.get("gc"):          # (costly on a big heap: a share of the cases; refcounting frees dropped handlers anyway)
+                    gc.collect()
+                if case["end"] == "shutdown":
+                    logging.shutdown()
+                else:
+                    for h in [h for h in lg.handlers if isinstance(h, logging.FileHandler)]:
+                        h.close()
+                    h = None
+            except Exception as e:
+                raised = f"{type(e).__name__}: {e}"
+    finally:
+        for h in list(lg.handlers):
+            if h not in saved[2]:
+                lg.removeHandler(h)
+                with contextlib.suppress(Exception):
+                    h.close()
+        h = None
+        lg.setLevel(saved[0]); lg.propagate = saved[1]
+    content = {k: (Path(pth).read_bytes() if Path(pth).exists() else None) for k, pth in files.items()}
+    shutil.rmtree(d, ignore_errors=True)
+    return {"files": content, "nerr": err.getvalue().count("--- Logging error ---"), "raised": raised,
+            "witness_seen": None if wit is None else list(wit.seen)}
+
+
+def _file_atoms(data, caller):
+    """what a log file says, flattened: ("m", text) per non-read message, ("c", ch) per character of read payload text"""
+    import ast as _ast
+    atoms = []
+    for line in data.decode("utf-8", "replace").split("\n"):
+        if not line or line.startswith("ID    | TIMESTAMP"):
+            continue
+        parts = line.split(" | ", 7 if caller else 4)
+        if len(parts) != (8 if caller else 5):
+            atoms.append(("?", line))
+            continue
+        msg = parts[-1]
+        if msg.startswith(COALESCED):
+            try:
+                atoms += [("c", ch) for ch in _ast.literal_eval(msg[len(COALESCED):]).decode("utf-8")]
+            except Exception:
+                atoms.append(("?", line))
+        elif msg.startswith(READ):
+            atoms += [("c", ch) for ch in msg[len(READ):]]
+        else:
+            atoms.append(("m", msg))
+    return atoms
+
+
+def _is_subsequence(want, got):
+    it = iter(got)
+    return all(any(a == b for b in it) for a in want)
+
+
+def judge_history(case, res):
+    """every record emitted while a file was configured (from the call that configured it to the next call) is in that
+    file, complete and in order — whatever was called afterwards; no logging error; a foreign handler keeps receiving"""
+    probs = []
+    if res["raised"]:
+        probs.append(f"exception: {res['raised']}")
+    if res["nerr"]:
+        probs.append(f"logging reported {res['nerr']} error(s)")
+    steps = case["steps"]
+    calls = [i for i, st in enumerate(steps) if st["op"] == "enable"]
+    for n, i in enumerate(calls):
+        st = steps[i]
+        end = calls[n + 1] if n + 1 < len(calls) else len(steps)
+        window = [x["rec"] for x in steps[i + 1:end] if x["op"] == "emit"]
+        want = []
+        for r in window:
+            m = o_message(r)
+            want += [("c", ch) for ch in m[len(READ):]] if r["msg"].startswith(READ) else [("m", m)]
+        data = res["files"].get(st["file"])
+        if data is None:
+            probs.append(f"log file of call {n + 1} does not exist")
+            continue
+        got = _file_atoms(data, st["caller"])
+        if not _is_subsequence(want, got):
+            probs.append(f"records emitted after enable_basic_logging call {n + 1} (file {st['file']}) are missing from / out of order in that file")
+    if res["witness_seen"] is not None:
+        w = [i for i, st in enumerate(steps) if st["op"] == "witness"][0]
+        exp = [o_message(x["rec"]) for x in steps[w + 1:] if x["op"] == "emit"]
+        if res["witness_seen"] != exp:
+            probs.append("a foreign handler on the scrapli logger stopped receiving records")
+    return probs
+
+
+def history_model_lines(case, vb):
+    """files configured by exactly one call: under the library's policy (handlers stack) the file is that handler's life
+    over every record emitted after the call"""
+    steps = case["steps"]
+    out = []
+    for i, st in enumerate(steps):
+        if st["op"] != "enable" or sum(1 for x in steps if x["op"] == "enable" and x["file"] == st["file"]) != 1:
+            continue
+        recs = [x["rec"] for x in steps[i + 1:] if x["op"] == "emit"]
+        out.append((st["file"], f"handler {vb} {int(st['buffered'])} {int(st['caller'])} 1 {int(st['mode'].lower() == 'append')} "
+                                 f"{es(case.get('old', {}).get(st['file'], ''))} {m_recs(recs)}"))
+    return out
+
+
+def _history(windows, calls, end, witness_at=None, old=None):
+    """windows: list of record-kind lists (windows[0] precedes the first call); calls: list of enable steps"""
+    ex = {"host": "sim", "port": "22", "uid": None}
+    steps, n = [], 0
+    for w, kinds in enumerate(windows):
+        if w:
+            steps.append({"op": "enable", **calls[w - 1]})
+        if witness_at == w:
+            steps.append({"op": "witness"})
+        for k in kinds:
+            n += 1
+            steps.append({"op": "emit", "rec": _hist_rec(k, n, ex)})
+    # one path, several calls: only sane when every call appends (O_APPEND) and the layout is the same
+    for f in {c["file"] for c in calls}:
+        same = [st for st in steps if st["op"] == "enable" and st["file"] == f]
+        if len(same) > 1:
+            for st in same:
+                st["mode"], st["caller"] = "append", same[0]["caller"]
+    return {"kind": "history", "steps": steps, "end": end, "old": old or {}, "gc": n % 7 == 0}
+
+
+def gen_histories(rng, tier):
+    out = []
+    lasts = (["R"], ["W"], ["I"], ["R", "R"], ["W", "Re"], ["R", "W"], [])
+    # exhaustive: two calls on two files x what was logged last before the second call x buffering x ending
+    for w1 in lasts:
+        for w2 in lasts[:4]:
+            for b1 in (True, False):
+                for b2 in (True, False):
+                    for end in ("shutdown", "close"):
+                        calls = [{"file": "A", "buffered": b1, "caller": False, "mode": "write"}, {"file": "B", "buffered": b2, "caller": False, "mode": "write"}]
+                        out.append(_history([["I"], w1, w2], calls, end))
+    nex = len(out)
+    for _ in range(150 if tier == "quick" else 2500):
+        nc = rng.choice([1, 2, 2, 3, 3])
+        calls = [{"file": rng.choice("ABC"[:rng.choice([1, 2, 3])]), "buffered": rng.random() < 0.75, "caller": rng.random() < 0.25,
+                  "mode": rng.choice(["write", "append", "Append"])} for _ in range(nc)]
+        windows = []
+        for _w in range(nc + 1):
+            k = [rng.choice(["R", "R", "Re", "W", "I"]) for _ in range(rng.randint(0, 5))]
+            if k and rng.random() < 0.6:
+                k[-1] = rng.choice(["R", "R", "W", "I"])
+            windows.append(k)
+        old = {f: rng.choice(["", "old line\n"]) for f in "ABC"} if rng.random() < 0.3 else None
+        out.append(_history(windows, calls, rng.choice(["shutdown", "shutdown", "close"]), witness_at=rng.choice([None, None, 0, 1]), old=old))
+    return out, nex
+
+
 # ---------------------------------------------------------------- the check
 def measure_variant(work, witnesses):
     """which of the three fixes the tree has: replay each stored witness through the oracle"""
@@ -815,6 +1018,11 @@ def run(tier, seed):
                "read runs coalesced, no logging error, no exception. Channel cases = real Channel/AsyncChannel sessions over "
                "SimTransport (CR-laden device, cut schedules) with channel_log path/True/BytesIO/off, write/append, one or two "
                "sessions; oracle = sink equals CR-stripped bytes served. e2e cases = enable_basic_logging around real sessions. "
+               "history cases = enable_basic_logging called 1..3 times (same / different files, buffering on/off, write/append, a "
+               "foreign handler attached) interleaved with records whose last one before the next call is a read / write / info, then "
+               "logging.shutdown() or close(); the harness keeps no reference to the handlers; oracle = every record emitted between a call "
+               "and the next one is in that call's file, complete and in order (atoms with unique tokens), no logging error; exhaustive over "
+               "2 calls x 7 x 4 last-record shapes x buffering x ending. "
                "Non-trivial = >= 2 records with a read run (handler) / >= 1 read with CR (channel); distinct by full case.")
     ck.trusted = ["Lean 4.33.0 kernel; axioms of every theorem audited ⊆ {propext, Classical.choice, Quot.sound}",
                   "tools/gen/c20.py (format strings, prefix, widths, templates copied from the source AST)",
@@ -960,6 +1168,13 @@ def _run(ck, tier, work):
         res = run_channel(c, work)
         plan.append(("channel", c, res, len(lines)))
         lines.append(m_chan_line(c, res["sessions"]))
+    hists, nhist_ex = gen_histories(ck.rng, tier)
+    hists = [json.loads(json.dumps(c)) for c in corpus if c.get("kind") == "history"] + hists
+    for c in hists:
+        res = run_history(c, work)
+        ml = history_model_lines(c, vb)
+        plan.append(("history", c, (res, [f for f, _ in ml]), len(lines)))
+        lines += [l for _, l in ml]
     for c in e2e:
         res = run_e2e(c, work)
         plan.append(("e2e", c, res, len(lines)))
@@ -1066,6 +1281,29 @@ def _run(ck, tier, work):
                     ck.disagree("Log model (channel log) vs real Channel", {k: v for k, v in c.items()}, f"impl={got[:300]} model={mout[li][:300]}")
                 else:
                     ck.traces_validated += 1
+        elif kind == "history":
+            res, mfiles = res
+            probs = judge_history(c, res)
+            ncalls = sum(1 for st in c["steps"] if st["op"] == "enable")
+            lastk = []
+            for i, st in enumerate(c["steps"]):
+                if st["op"] == "enable" and i and c["steps"][i - 1]["op"] == "emit":
+                    lastk.append("read" if is_read(c["steps"][i - 1]["rec"]) else "other")
+            ck.case(json.dumps(c, sort_keys=True), nontrivial=ncalls >= 2,
+                    sample={"history": [st["op"] + ":" + (st.get("file") or st.get("rec", {}).get("msg", ""))[:12] for st in c["steps"]][:8], "end": c["end"]},
+                    tags=("history", f"hist-calls={ncalls}", "hist-end=" + c["end"], *("hist-last-before-call=" + k for k in set(lastk)),
+                          *(["hist-same-file"] if len({st["file"] for st in c["steps"] if st["op"] == "enable"}) < ncalls else [])))
+            if probs:
+                ck.violation({**c, "got_files": {k: (v.decode("utf-8", "replace") if v is not None else None) for k, v in res["files"].items()}},
+                             "; ".join(probs), None)
+            if mout is not None and not res["raised"]:
+                for k, f in enumerate(mfiles):
+                    mfile = mout[li + k].split(" ")[0]
+                    if hexs(res["files"].get(f) or b"") != mfile:
+                        ck.disagree("Log model (one handler per enable_basic_logging call) vs logging API history", c,
+                                    f"file {f}: impl={hexs(res['files'].get(f) or b'')[-400:]} model={mfile[-400:]}")
+                    else:
+                        ck.traces_validated += 1
         elif kind == "e2e":
             cc = {"kind": "e2e", "buffered": c["buffered"], "caller": c["caller"], "append": c["mode"].lower() == "append", "old": c.get("old", ""),
                   "recs": res["recs"], "gen": c}
@@ -1102,7 +1340,7 @@ def _run(ck, tier, work):
     ck.extra["exhaustive_scope"] = (f"all record sequences of <= {nmax} records over a 6-kind alphabet (buffered; <= 3 unbuffered) + all 8 extras "
                                    f"subsets x 11 target lengths x caller_info ({nexh} cases); bytes repr on all 256 single bytes")
     ck.extra["case_counts"] = {"handler": len(hcases), "malformed_advisory": len(mal), "formatter": len(fcases), "channel": len(chcases), "e2e": len(e2e),
-                               "small": len(small)}
+                               "history": len(hists), "history_exhaustive": nhist_ex, "small": len(small)}
     return ck.finish()
 
 
@@ -1123,6 +1361,12 @@ def replay(path):
             print("got file:\n" + res["file"].decode("utf-8", "replace"))
             print("want file:\n" + want)
             print("errors:", res["errors"], "raised:", res["raised"])
+        elif kind == "history":
+            res = run_history(c, work)
+            probs = judge_history(c, res)
+            for k, v in res["files"].items():
+                print(f"--- file {k}:\n" + (v.decode("utf-8", "replace") if v is not None else "(missing)"))
+            print("steps:", [(st["op"], st.get("file") or st.get("rec", {}).get("msg")) for st in c["steps"]], "end:", c["end"])
         elif kind == "formatter":
             out = run_formatter(c)
             probs = [f"raised {o[1]}" for o in out if o[0] != "ok"]
